@@ -106,7 +106,11 @@ func (t *Ticket) Unmarshal(b []byte) error {
 
 // Marshal the Ticket.
 func (t *Ticket) Marshal() ([]byte, error) {
-	b, err := asn1.Marshal(*t)
+	// The decrypted part is not part of a ticket's encoding. It must not be marshalled when it has been
+	// populated by decrypting the ticket: it holds the session key in clear.
+	m := *t
+	m.DecryptedEncPart = EncTicketPart{}
+	b, err := asn1.Marshal(m)
 	if err != nil {
 		return nil, err
 	}
